@@ -13,7 +13,7 @@ ALPHA = Alphabet(
     add=[((T1,), "a", "ok")],
     fac=[((T0,), "a", False, "ok"), ((T0, T1), "a", False, "ok"), ((T0,), "a", True, "ok"), ((T0, T1), "a", True, "ok")],
     look=[(T0, "a", "nowait"), (T1, "a", "nowait"), (T0, "a", "await"), (T1, "a", "await"),
-          (T0, "a", "inject_sync"), (T0, "a", "inject_async"), (T0, "a", "shortcut_await")],
+          (T0, "a", "inject_sync"), (T0, "a", "inject_async"), (T0, "a", "shortcut_await"), (T1, "a", "inject_async_opt")],
     visit=True,
 )
 ALPHA_T = Alphabet(
